@@ -1,4 +1,4 @@
-from contracts import errs, parsers_agree, pass1cover
+from contracts import errs, parsers_agree, pass1cover, linenos
 
 def build(tier):
-    return dict(targets=errs.targets_c14(tier) + parsers_agree.targets(tier) + pass1cover.targets(tier), assumptions=[], trusted_base=[])
+    return dict(targets=errs.targets_c14(tier) + parsers_agree.targets(tier) + pass1cover.targets(tier) + linenos.targets(tier), assumptions=[], trusted_base=[])
